@@ -118,6 +118,17 @@ func c09Prop(t *testing.T, k *verifkit.Kit) func(c c09Case) error {
 			if full.Conns != 1 {
 				return verifkit.Violf("C09/monitor-redialed", "monitor opened %d connections: invalid messages disrupted it\n%s", full.Conns, tl)
 			}
+			// (the run without invalid messages is itself judged against the script, so that the comparison below is not
+			// the implementation agreeing with itself: every message delivered before the stop reaches the consumer)
+			var wantCB []string
+			for _, d := range ref.Delivered {
+				if d.Ev.Kind != "readerr" && d.At+time.Second < ref.StopAt {
+					wantCB = append(wantCB, vkTypeName(d.Ev.Msg))
+				}
+			}
+			if len(ref.Callbacks) < len(wantCB) || strings.Join(ref.Callbacks[:len(wantCB)], ",") != strings.Join(wantCB, ",") {
+				return verifkit.Violf("C09/monitor-valid-message-not-served", "the monitor was sent %v (valid messages only), its consumer saw %v\n%s", wantCB, ref.Callbacks, ref.W.timeline())
+			}
 			if strings.Join(full.Callbacks, ",") != strings.Join(ref.Callbacks, ",") {
 				return verifkit.Violf("C09/monitor-callbacks-differ", "messages delivered to the monitor differ from the sequence without invalid messages:\nwith    %v\nwithout %v\n%s", full.Callbacks, ref.Callbacks, tl)
 			}
